@@ -33,11 +33,12 @@ type dtStr struct {
 
 func c17Grid(full bool) []dtStr {
 	var out []dtStr
-	dates := []string{"2023-08-15", "2024-02-29", "1999-12-31", "2000-01-01", "0001-01-01", "9999-12-31", "2023-03-26", "2023-11-05", "1970-01-01"}
-	times := []string{"00:00:00", "12:34:56", "23:59:59", "01:30:00", "23:59:59.999999", "12:34:56.789", "00:00:00.5", "12:34:56.1234567", "23:59:59.9999995", "12:34:56.123456789", "02:30:00"}
+	// (2023-03-26 / 2023-11-05 / 2024-03-10: daylight-saving transitions in Europe/Berlin and America/New_York)
+	dates := []string{"2023-08-15", "2024-02-29", "2023-03-26", "2023-11-05", "2024-03-10", "1999-12-31", "2000-01-01", "0001-01-01", "9999-12-31", "1970-01-01"}
+	times := []string{"00:00:00", "12:34:56", "23:59:59", "01:30:00", "03:30:00", "06:00:00", "23:59:59.999999", "12:34:56.789", "00:00:00.5", "12:34:56.1234567", "23:59:59.9999995", "12:34:56.123456789", "02:30:00"}
 	zones := []string{"Z", "+00", "+01", "-05", "+05:30", "-03:30", "+14:00", "-12:00", "+13:45", "+00:00", "-08", "+09:00"}
 	if !full {
-		dates = dates[:6]
+		dates = dates[:7]
 		zones = zones[:8]
 	}
 	for _, d := range dates {
@@ -194,6 +195,29 @@ func checkCompare(c *h.Ctx, a, b dtStr, tz bool, zone string, rel map[[2]string]
 				c.Violate("cmp.tzrequired", feat, fmt.Sprintf("%s on %s: %s; a comparison between zone-less and zone-aware values without WithTZ must raise the non-suppressible error", ptxt, cs.Doc, o.Summary()), cs)
 			} else {
 				c.Held("cmp.tzrequired")
+			}
+			// ... also under WithSilent and inside exists() / a filter (suppression must not swallow it)
+			if op == "<" {
+				for _, form := range []string{"$[0].datetime() < $[1].datetime()", "exists($ ? (@[0].datetime() < @[1].datetime()))", "$ ? (exists(@ ? (@[0].datetime() < @[1].datetime())))"} {
+					pf := cachedPath("strict " + form)
+					for _, entry := range []string{"query", "exists"} {
+						for _, silent := range []bool{true, false} {
+							if pf == nil || (!silent && form == ptxt) {
+								continue
+							}
+							os := h.Call(entry, pf, []any{a.s, b.s}, h.Opts{Silent: silent, Zone: h.ParseZone(zone)})
+							c.Eval(1)
+							scs := cs
+							scs.Path, scs.Silent, scs.Entry = "strict "+form, silent, entry
+							if os.Class != h.Hard {
+								f2 := h.F("a", a.kind, "b", b.kind, "silent", fmt.Sprint(silent), "form", form)
+								c.Violate("cmp.tzrequired", f2, fmt.Sprintf("%s(strict %s) on %s (silent=%v): %s; the time-zone error must not be suppressed", entry, form, cs.Doc, silent, os.Summary()), scs)
+							} else {
+								c.Held("cmp.tzrequired")
+							}
+						}
+					}
+				}
 			}
 		default:
 			got, isErr, ok := triOf(o)
